@@ -56,7 +56,7 @@ func ParseFinalRegistrySource(given string) (RegistrySourceFinal, error) {
 			addr = fmt.Sprintf("%s//%s", addr, matches[4])
 		}
 	}
-	version, err := versions.ParseVersion(ver)
+	version, err := parseVersion(ver)
 	if err != nil {
 		return RegistrySourceFinal{}, fmt.Errorf("invalid version: %w", err)
 	}
@@ -65,6 +65,18 @@ func ParseFinalRegistrySource(given string) (RegistrySourceFinal, error) {
 		return RegistrySourceFinal{}, fmt.Errorf("invalid registry source: %w", err)
 	}
 	return regSrc.Versioned(version), nil
+}
+
+// parseVersion is versions.ParseVersion, except that a version whose numeric
+// components do not fit the parser's integer type is reported as an error:
+// the underlying library panics on those instead.
+func parseVersion(s string) (v versions.Version, err error) {
+	defer func() {
+		if r := recover(); r != nil {
+			v, err = versions.Unspecified, fmt.Errorf("invalid version %q: %v", s, r)
+		}
+	}()
+	return versions.ParseVersion(s)
 }
 
 // Unversioned returns the address of the registry package that this final
